@@ -3,3 +3,4 @@ import Props.C03
 import Props.C04
 import Props.C10
 import Props.C14
+import Props.C15
